@@ -272,7 +272,10 @@ TimeoutBase(o) == Max2(Max2(Max2(ShutdownT(o), o.lastTakeT), o.lastUnsatT) + Pol
 
 Global(c, o, ev) ==
   LET nRun == o.nRun
-      unfinished == Len(o.taken) - o.nFin
+      (* a coroutine body that is still running although the processing of its message has ended is unfinished work too *)
+      orphans == Cardinality({m \in TakenSet(o) : IsValid(c, m) /\ MsgC(c, m).task \in {"ta", "ta0"}
+                                                   /\ o.ms[m].st > 0 /\ o.ms[m].en = 0 /\ o.ms[m].cbE > 0})
+      unfinished == Len(o.taken) - o.nFin + orphans
       busy == Max2(o.nRun, o.nBody)
   IN
      (IF c.A > 0 /\ busy > c.A THEN {"C03_Limit"} ELSE {})
